@@ -12,6 +12,9 @@ import (
 	"fmt"
 	"io"
 	"log/slog"
+	"os"
+	"path/filepath"
+	"runtime"
 	"sort"
 	"sync"
 	"testing"
@@ -438,6 +441,11 @@ func Bubble(t *testing.T, limit time.Duration, f func(t *testing.T)) bool {
 	case <-done:
 		return true
 	case <-time.After(limit):
+		if dir := os.Getenv("VERIF_OUT"); dir != "" {
+			buf := make([]byte, 8<<20)
+			n := runtime.Stack(buf, true)
+			_ = os.WriteFile(filepath.Join(dir, fmt.Sprintf("frozen-bubble-%d.txt", time.Now().UnixNano())), buf[:n], 0o644)
+		}
 		return false
 	}
 }
